@@ -75,6 +75,7 @@ class Obl:
     tiers: tuple = ('quick', 'thorough')
     object_bits: Optional[int] = None
     slice: bool = True
+    unwinding_assertions: bool = True    # False: paths beyond the unwinding bound are cut (the obligation's assertions sit before the first loop)
     backend: Optional[str] = None     # 'cvc5int': cbmc --cvc5 with cvc5 started as `cvc5 --solve-bv-as-int=sum` (mul/div by constants)
     ignore_props: List[str] = field(default_factory=list)  # regexes on 'file:function desc' that are not part of the claim
 
@@ -154,8 +155,9 @@ DEFAULT_IGNORE = [r'arithmetic overflow on (un)?signed to (un)?signed type conve
 
 
 def cbmc_cmd(o, gb):
-    cmd = ['cbmc', gb, '--function', 'vf_harness', '--json-ui', '--verbosity', '8', '--unwinding-assertions',
-           '--drop-unused-functions']
+    cmd = ['cbmc', gb, '--function', 'vf_harness', '--json-ui', '--verbosity', '8', '--drop-unused-functions']
+    if o.unwinding_assertions:
+        cmd.append('--unwinding-assertions')
     if o.slice:
         cmd.append('--slice-formula')
     if not o.malloc_may_fail:
